@@ -195,7 +195,7 @@ def many_coords_job(ctx, agg, arg):
         for md in MD_MENU:
             # ---- nearest_atom_index -----------------------------------------------------------
             op = "nearest_atom_index"
-            attrs = {"coordinates": label, "max_dist": repr(md)}
+            attrs = {"coordinates": label, "max_dist": "zero" if md == 0 else "positive"}
             agg.tick(op, **attrs)
             ctx.count(evaluations=1, traces=1, transitions=1)
             try:
@@ -212,7 +212,7 @@ def many_coords_job(ctx, agg, arg):
             # ---- prune ------------------------------------------------------------------------
             op = "prune"
             for eps in EPS_MENU:
-                attrs = {"coordinates": label, "max_dist": repr(md), "eps": repr(eps)}
+                attrs = {"coordinates": label, "max_dist": "zero" if md == 0 else "positive", "eps": repr(eps)}
                 agg.tick(op, **attrs)
                 ctx.count(evaluations=1, traces=1, transitions=1)
                 try:
